@@ -32,6 +32,9 @@ def run_history(cfg, hist, tokens=True):
     obj = make(cfg)
     ref0 = _bits(obj.a_ref)
     f2t = {v: k for k, v in TOK_MU2.items()}
+    from eko import constants as _c
+
+    f2t[float(_c.MTAU**2)] = 100     # token of the tau mass in Couplings.tla
     steps = []
     orig = Couplings.compute
 
